@@ -90,6 +90,13 @@ pub trait Storage: Sync + Send + 'static {
 
     fn drop_table(&self, table_id: TableRefId) -> impl Future<Output = StorageResult<()>> + Send;
 
+    /// Drops all the given tables in one step: either every one of them is dropped or, on an
+    /// error or a crash, none is.
+    fn drop_tables(
+        &self,
+        table_ids: &[TableRefId],
+    ) -> impl Future<Output = StorageResult<()>> + Send;
+
     fn create_index(
         &self,
         schema_id: SchemaId,
